@@ -9,7 +9,8 @@ EXPLANATION = (
     "Two analyses over the client-reachable region of the local call graph (entries: connection task, ClientConnection::next, the "
     "Request API and Drop, every Read/Write/Drop impl that can sit inside a Request, Server::recv*). (A) TAINT-BOUND: integers parsed "
     "from client text are followed through locals, arguments, closure returns and struct fields to allocation-size operands; each "
-    "tainted sink must be dominated by a comparison with a constant or fed by min(.., K). (B) panic-site census: every MIR Assert, "
+    "tainted sink must be dominated by a comparison with a constant or fed by min(.., K), or every abstract path of the framing decision that reaches "
+    "it has assumed such a comparison of the very value it is sized by (not of another header's length). (B) panic-site census: every MIR Assert, "
     "unwrap/expect, panic!/assert!/unreachable!, indexing and panicking arithmetic in the region must be discharged by a static rule "
     "(always-Some constructor, hand-off protocol, lock-poison freedom, typestate of the Request slots, ASCII literal, infeasible on "
     "every variant-consistent path, guarded index/arith, Read-contract accumulator, configuration-dead TLS code); undischarged sites are violations.")
@@ -1161,6 +1162,26 @@ def framing_bound(facts, g, bb):
                 if upper:
                     ks.append(K)
         if not ks or min(ks) > taint.MAX_BOUND:
+            return None
+        # ... and the value compared is the very value the allocation is sized by (a later header's length is a different value than the
+        # first one's: call results carry the loop iteration they were obtained in), not merely *a* converted Content-Length
+        idxs = [i for b_, t_, i in taint.sink_sites(g) if b_ == bb]
+        size = evs[0][3][idxs[0]] if idxs and len(evs[0][3]) > idxs[0] else None
+        same = False
+        for cb, c in p.conds:
+            if not c or c[0] != "scalar" or not isinstance(c[2], bool):
+                continue
+            v, val = c[1], c[2]
+            while v[0] == "unop" and v[1] == "Not":
+                v, val = v[2], not val
+            if v[0] != "binop" or v[1] not in ("Lt", "Le", "Gt", "Ge"):
+                continue
+            ka, kb = absint.const_of(v[2]), absint.const_of(v[3])
+            if isinstance(kb, int) and not isinstance(kb, bool) and v[2] == size and kb <= taint.MAX_BOUND + 1 and ((v[1] in ("Lt", "Le")) == val):
+                same = True
+            if isinstance(ka, int) and not isinstance(ka, bool) and v[3] == size and ka <= taint.MAX_BOUND + 1 and ((v[1] in ("Gt", "Ge")) == val):
+                same = True
+        if size is not None and not same:
             return None
         worst = max(worst, min(ks))
     if n == 0:
